@@ -61,6 +61,7 @@ type Case struct {
 	Series  []SeriesIn `json:"series,omitempty"` // file: the series written
 	Rep     []uint64 `json:"rep,omitempty"`     // corpus: vals = rep[0] repeated rep[1] times
 	Fails   []FailJ  `json:"fails,omitempty"`   // file: every difference the oracle found
+	CM      *CMJ     `json:"cm,omitempty"`      // col: the chunk meta, field by field and marshalled
 	RecJ    *RecJ    `json:"recj,omitempty"`    // record: schema and column values as marshalled (for the model)
 	RowsJ   []RowJ   `json:"rowsj,omitempty"`   // rows: the batch, field by field (for the model)
 	Seed    uint64   `json:"seed,omitempty"`    // rows/record: generator seed of the case
@@ -1033,7 +1034,7 @@ func main() {
 			c.K = "string"
 			c.Shape, c.Strs, c.Algo = genStrings(r)
 		default:
-			if i%24 == 23 {
+			if (i/16)%3 == 2 {
 				genRecord(r, &c)
 			} else {
 				genFrame(r, &c)
